@@ -40,7 +40,9 @@ def cases(text):
             elif l.startswith("B "):
                 cur["bonds"].append(l)
             elif l.startswith("SIC "):
-                cur.setdefault("sic", set()).add(int(l.split()[1]))
+                f = l.split()
+                cur.setdefault("sic", set()).add(int(f[1]))
+                cur.setdefault("sicpos", {})[int(f[1])] = set(ints(f[2])) if len(f) > 2 else None
             elif l.startswith("IO "):
                 f = l.split()
                 cur["io"][(int(f[1]), f[2])] = ints(f[3]) if len(f) > 3 else []
@@ -147,8 +149,19 @@ def compare(impl, model):
             if bad:
                 break
         W, R = streams(a["lines"], "W", "R")
+        sicpos = a.get("sicpos", {})
+
+        def sic_end(bi, j):
+            return bi in sic and (sicpos.get(bi) is None or j in sicpos[bi])
+
         for (bi, j), got in sorted(R.items()):
-            if bi in sic:
+            if sic_end(bi, j):
+                # sicv3 acknowledges a value without taking it: it may acknowledge one value twice, but
+                # the producer must not get past a value the instruction has not acknowledged
+                if len(W.get(bi, [])) - len(got) > 1:
+                    fails.append(dict(base, kind="property-fails-on-impl", world="Go simulator", bond=bi, written=W.get(bi, []), consumer=j, got=got,
+                                      why="the producer of bond %d completed %d writes while its sicv3 consumer %d acknowledged only %d"
+                                          % (bi, len(W.get(bi, [])), j, len(got))))
                 continue
             if not stream_ok(W.get(bi, []), got):
                 fails.append(dict(base, kind="property-fails-on-impl", world="Go simulator", bond=bi, written=W.get(bi, []), consumer=j, got=got,
@@ -169,14 +182,14 @@ def compare(impl, model):
             fails.append(dict(base, kind="hdl-correspondence", detail=vt))
         VW, VR = streams(b["lines"], "VW", "VR")
         for (bi, j), got in sorted(VR.items()):
-            if bi in sic:
-                continue
+            if sic_end(bi, j):
+                continue      # (sicv3 is not among the opcodes both back-ends implement alike: no hardware-side claim)
             if not stream_ok(VW.get(bi, []), got):
                 fails.append(dict(base, kind="property-fails-on-impl", world="emitted Verilog under BMV.Vlog", bond=bi, written=VW.get(bi, []),
                                   consumer=j, got=got,
                                   why="hardware consumer %d of bond %d captured %s but the producer wrote %s" % (j, bi, got, VW.get(bi, []))))
         # a bond that stops moving in hardware while it keeps moving in the simulator is a deadlock
-        if VW and len(G) >= 120:
+        if VW and len(G) >= 120 and not sic:   # (with sicv3 in the net the two worlds need not keep the same pace)
             for bi, w in sorted(W.items()):
                 if bi not in sic and len(w) >= 3 and len(VW.get(bi, [])) == 0 and vt.startswith("VT"):
                     fails.append(dict(base, kind="property-fails-on-impl", world="emitted Verilog under BMV.Vlog", bond=bi, written=[], consumer=0, got=[],
@@ -184,6 +197,53 @@ def compare(impl, model):
                                           % (bi, len(G), len(w))))
                     break
     return st, fails
+
+
+def netlist_tie(impl_text, st, fails):
+    """The top level that Write_verilog_main emits for the SAME nets (anchored file verilog.go): every
+    consumer of a bond — processor input or BondMachine output — must be a term of the producer's
+    `received` conjunction, data/valid must come from the bonded driver.  Done with C02's machinery
+    (its harness renders and parses the real netlist, its oracle holds BMV.Bond.wire and evaluates the
+    predicates of C02.netlist_exact on the emitted text)."""
+    import importlib.util
+    spec = importlib.util.spec_from_file_location("c02props", os.path.join(os.path.dirname(os.path.abspath(__file__)), "c02.py"))
+    c02 = importlib.util.module_from_spec(spec)
+    spec.loader.exec_module(c02)
+    hb2 = vlib.go_build("c02")
+    if not os.path.exists(c02._oracle()):
+        vlib.lake_build([c02.EXE])
+    d = vlib.scratch_dir("c04net")
+    f = os.path.join(d, "nets.txt")
+    cs = cases(impl_text)
+    with open(f, "w") as fh:
+        for a in cs:
+            bonds = [bond_desc(l) for l in a["bonds"]]
+            fh.write("G 8\n")
+            for i in range(a["P"]):
+                fh.write("D ap %d\n" % i)
+            nin = max([op + 1 for (_, pp, op, _) in bonds if pp < 0] + [0])
+            nout = max([ip + 1 for (_, _, _, cons) in bonds for (c, ip) in cons if c < 0] + [0])
+            fh.write("D ai\n" * nin + "D ao\n" * nout)
+            for (_, pp, op, cons) in bonds:
+                drv = ("i%d" % op) if pp < 0 else "p%do%d" % (pp, op)
+                for (c, ip) in cons:
+                    fh.write("D ab %s %s\n" % (("o%d" % ip) if c < 0 else "p%di%d" % (c, ip), drv))
+            for i in range(a["P"]):
+                arch = a["arch"].get(i, "A 8 1 0 0 0 5 ha 0 ops=")
+                fh.write("A %d %s\n" % (i, arch[2:]))
+                for l in a["src"].get(i, []):
+                    fh.write("S %d %s\n" % (i, l))
+    tot = c02.Tot()
+    c02.run_mode(tot, hb2, "net", ["replaynet", f])
+    st["netlists"] = tot.n["net_cases"]
+    st["netlists_ok"] = tot.n["net_ok"]
+    for x in tot.fails:
+        k = next((i for i, a in enumerate(cs) if False), None)
+        kind = "property-fails-on-impl" if x["kind"] == "property-netlist" else "netlist-correspondence"
+        fails.append({"kind": kind, "world": "emitted top-level netlist (Write_verilog_main)", "bond": -1, "written": [], "consumer": -1, "got": [],
+                      "why": "the emitted bondmachine.v does not wire a bond as the machine's topology says: %s | %s"
+                             % (x.get("detail", ""), x.get("exact_on_emitted", "")),
+                      "netlist_case": x.get("case"), "emitted": x.get("emitted"), "detail": x.get("detail")})
 
 
 def run_pair(hbin, args, timeout=2400):
@@ -260,6 +320,9 @@ def run(rep):
         st, fs = compare(impl, model)
         absorb(st)
         fails += fs
+        nst = {}
+        netlist_tie(impl, nst, fails)
+        rep.coverage["top_level_netlists_checked"] = nst
         c0 = cases(impl)[0]
         samples.append({"processors": c0["P"], "bonds": c0["bonds"], "programs": [c0["src"].get(i, []) for i in range(c0["P"])],
                         "first_ticks": [l for l in c0["lines"] if l.startswith("G ")][:8],
@@ -282,14 +345,16 @@ def run(rep):
     if real:
         f = real[0]
         rep.violation(dict(net(f), property=PROP, kind=f["kind"], world=f["world"], bond=f["bond"], written=f["written"],
-                           consumer=f["consumer"], got=f["got"], why=f["why"], other_failing_cases=len(real) - 1))
+                           consumer=f["consumer"], got=f["got"], why=f["why"], other_failing_cases=len(real) - 1,
+                           netlist_case=f.get("netlist_case"), emitted=f.get("emitted")))
     elif other or not pr["ok"]:
         broken = list(pr["broken"])
         detail = None
         if other:
             f = other[0]
             detail = dict(net(f), **{k: f.get(k) for k in ("kind", "tick", "bond", "impl", "model", "detail")})
-            names = {"sim-correspondence": "BMV.Hs.Isa vs bondmachine.VM", "hdl-correspondence": "BMV.Hs.Rtl vs emitted Verilog under BMV.Vlog",
+            names = {"netlist-correspondence": "BMV.Bond.wire vs emitted bondmachine.v (C02's tie, on C04's nets)",
+                     "sim-correspondence": "BMV.Hs.Isa vs bondmachine.VM", "hdl-correspondence": "BMV.Hs.Rtl vs emitted Verilog under BMV.Vlog",
                      "rtl-model-correspondence": "BMV.Hs.Rtl vs net of BMV.Rtl.cycle"}
             broken.append("correspondence: " + names.get(f["kind"], f["kind"]))
         rep.violation({"property": PROP, "kind": "proof-or-correspondence-broken", "broken": broken, "first_disagreement": detail,
